@@ -191,7 +191,7 @@ Lemma argument_float v neg ip fp : all_ascii v = true -> is_int_text v = false -
 Proof.
   intros A I O Nw Nl Q F L. unfold argument. rewrite A, I, O, Nw, Nl, Q, F. cbn [negb andb].
   assert (E : Nat.ltb 15 (List.length (drop_while (N.eqb 48) (ip ++ fp))) = false).
-  { apply Nat.ltb_ge. pose proof (drop_while_length_le (N.eqb 48) (ip ++ fp)). lia. }
+  { apply Nat.ltb_ge. eapply Nat.le_trans; [apply drop_while_length_le|exact L]. }
   rewrite E. reflexivity.
 Qed.
 
@@ -248,36 +248,29 @@ Qed.
 Lemma sign_ascii (neg : bool) : all_ascii (if neg then [45] else []) = true.
 Proof. destruct neg; reflexivity. Qed.
 
-Lemma arg_fixed_text (neg : bool) hi lo w mark :
-  hi < 10000000 -> (1 <= w <= 8)%nat -> lo < 10 ^ N.of_nat w -> (mark = 46 \/ mark = 44) ->
-  argument ((if neg then [45] else []) ++ n_to_dec hi ++ mark :: dec_pad w lo)
-  = Ok (PFloat (mkDec (dec_digits_z neg (n_to_dec hi ++ dec_pad w lo)) (N.of_nat w))).
+Lemma arg_float_shape (neg : bool) ip mark fp :
+  ip <> [] -> forallb is_digit ip = true -> fp <> [] -> forallb is_digit fp = true ->
+  (mark = 46 \/ mark = 44) -> (List.length ip + List.length fp <= 15)%nat ->
+  argument ((if neg then [45] else []) ++ ip ++ mark :: fp)
+  = Ok (PFloat (mkDec (dec_digits_z neg (ip ++ fp)) (N.of_nat (List.length fp)))).
 Proof.
-  intros Hhi Hw Hlo Hm.
-  pose proof (n_to_dec_nonempty hi) as Ni. pose proof (n_to_dec_digits hi) as Di.
-  pose proof (dec_pad_nonempty w lo) as Nf. pose proof (dec_pad_digits w lo) as Df.
-  assert (Lf : List.length (dec_pad w lo) = w) by (apply dec_pad_length; [lia|exact Hlo]).
-  assert (Li : (List.length (n_to_dec hi) <= 7)%nat).
-  { apply n_to_dec_len; [lia|]. change (10 ^ N.of_nat 7) with 10000000. exact Hhi. }
+  intros Ni Di Nf Df Hm Hl.
   assert (Am : is_ascii mark = true) by (destruct Hm as [-> | ->]; reflexivity).
   assert (Dm : is_digit mark = false) by (destruct Hm as [-> | ->]; reflexivity).
   assert (Wm : is_word mark = false) by (destruct Hm as [-> | ->]; reflexivity).
   assert (M1 : N.eqb mark 64 = false) by (destruct Hm as [-> | ->]; reflexivity).
   assert (M2 : N.eqb mark 35 = false) by (destruct Hm as [-> | ->]; reflexivity).
-  set (ip := n_to_dec hi) in *. set (fp := dec_pad w lo) in *.
-  rewrite <- Lf at 2.
-  destruct ip as [|i0 ip'] eqn:Eip; [congruence|].
-  assert (D0 : is_digit i0 = true).
-  { cbn [forallb] in Di. apply andb_true_iff in Di. destruct Di as [D0 _]. exact D0. }
-  rewrite <- Eip.
   apply argument_float.
-  - rewrite !all_ascii_app. rewrite sign_ascii. rewrite (digits_all_ascii _ ltac:(rewrite Eip; exact Di)).
+  - rewrite !all_ascii_app. rewrite sign_ascii. rewrite (digits_all_ascii _ Di).
     unfold all_ascii at 1. cbn [forallb]. rewrite Am. apply digits_all_ascii in Df. unfold all_ascii in Df.
     rewrite Df. reflexivity.
   - destruct neg.
     + change ([45] ++ ip ++ mark :: fp) with (45 :: ip ++ mark :: fp).
       apply is_int_text_neg_false. apply forallb_mid_false. exact Dm.
-    + change ([] ++ ip ++ mark :: fp) with (ip ++ mark :: fp). rewrite Eip. cbn [app].
+    + change ([] ++ ip ++ mark :: fp) with (ip ++ mark :: fp).
+      destruct ip as [|i0 ip']; [congruence|]. pose proof Di as D0.
+      cbn [forallb] in D0. apply andb_true_iff in D0. destruct D0 as [D0 _].
+      change ((i0 :: ip') ++ mark :: fp) with (i0 :: (ip' ++ mark :: fp)).
       rewrite is_int_text_nohyphen by cc.
       change (i0 :: ip' ++ mark :: fp) with ((i0 :: ip') ++ mark :: fp).
       apply forallb_mid_false. exact Dm.
@@ -285,19 +278,44 @@ Proof.
     + change ([45] ++ ip ++ mark :: fp) with (45 :: ip ++ mark :: fp).
       apply obj_text_none_first. reflexivity.
     + change ([] ++ ip ++ mark :: fp) with (ip ++ mark :: fp).
-      apply obj_text_none_stop; try assumption. apply digits_word. rewrite Eip. exact Di.
+      apply obj_text_none_stop; try assumption. apply digits_word. exact Di.
   - destruct neg.
     + apply new_id_none_first. discriminate.
-    + rewrite Eip. cbn [app]. apply new_id_none_first. cc.
+    + destruct ip as [|i0 ip']; [congruence|].
+      cbn [forallb] in Di. apply andb_true_iff in Di. destruct Di as [D0 _].
+      cbn [app]. apply new_id_none_first. cc.
   - destruct neg.
     + reflexivity.
-    + rewrite Eip. cbn [app]. unfold str_eqb. norm_lits. cbn [list_eqb].
+    + destruct ip as [|i0 ip']; [congruence|].
+      cbn [forallb] in Di. apply andb_true_iff in Di. destruct Di as [D0 _].
+      cbn [app]. unfold str_eqb. norm_lits. cbn [list_eqb].
       assert (E : N.eqb i0 110 = false) by cc. rewrite E. reflexivity.
   - destruct neg.
     + reflexivity.
-    + rewrite Eip. cbn [app starts_with]. assert (E : N.eqb 34 i0 = false) by cc. rewrite E. reflexivity.
-  - apply float_text_ok; try assumption. rewrite Eip. discriminate. rewrite Eip. exact Di.
+    + destruct ip as [|i0 ip']; [congruence|].
+      cbn [forallb] in Di. apply andb_true_iff in Di. destruct Di as [D0 _].
+      cbn [app starts_with]. assert (E : N.eqb 34 i0 = false) by cc. rewrite E. reflexivity.
+  - apply float_text_ok; assumption.
   - rewrite app_length. lia.
+Qed.
+
+Lemma arg_fixed_text (neg : bool) hi lo w mark :
+  hi < 10000000 -> (1 <= w <= 8)%nat -> lo < 10 ^ N.of_nat w -> (mark = 46 \/ mark = 44) ->
+  argument ((if neg then [45] else []) ++ n_to_dec hi ++ mark :: dec_pad w lo)
+  = Ok (PFloat (mkDec (dec_digits_z neg (n_to_dec hi ++ dec_pad w lo)) (N.of_nat w))).
+Proof.
+  intros Hhi Hw Hlo Hm.
+  assert (Lf : List.length (dec_pad w lo) = w) by (apply dec_pad_length; [lia|exact Hlo]).
+  assert (Li : (List.length (n_to_dec hi) <= 7)%nat).
+  { apply n_to_dec_len; [lia|]. change (10 ^ N.of_nat 7) with 10000000. exact Hhi. }
+  rewrite arg_float_shape.
+  - rewrite Lf. reflexivity.
+  - apply n_to_dec_nonempty.
+  - apply n_to_dec_digits.
+  - apply dec_pad_nonempty.
+  - apply dec_pad_digits.
+  - exact Hm.
+  - lia.
 Qed.
 
 Lemma dec_value_hi_lo hi lo w : lo < 10 ^ N.of_nat w -> (1 <= w)%nat ->
@@ -354,7 +372,7 @@ Proof.
   rewrite argument_str.
   - unfold strip_ends. cbn [tl]. rewrite removelast_last. reflexivity.
   - unfold ends_with. cbn [rev]. rewrite rev_app_distr. cbn [rev app starts_with].
-    rewrite app_length. cbn [List.length]. rewrite N.eqb_refl. cbn [andb].
+    cbn [List.length]. rewrite app_length. cbn [List.length]. rewrite N.eqb_refl. cbn [andb].
     apply Nat.leb_le. lia.
   - apply is_int_text_first; [discriminate|reflexivity].
   - apply obj_text_none_first. reflexivity.
